@@ -138,6 +138,7 @@ def recipes(tier='quick'):
                                [1.5, -0.75, 2.25, 0.5, 1, 2, -1, 0.5, 0.25, 3, 1, 1], [0.5, 1, -1.5, 2, 0, 1, 1, 1, -2, 0.5, 0, 1]))
     add('Laplacian', {'pad_mode': 'constant', 'pad_const': 'nonzero'},
         lambda: (odl.Laplacian(d2, pad_mode='constant', pad_const=1.5), [1.5, -0.75, 2.25, 0.5, 1, 2], [0.5, 1, -1.5, 2, 0, 1]))
+    recipes.n_first = len(R)           # recipes of the first catalogue version (opcatalog derives all forms of these)
     wide_recipes(tier, add)
     return R
 
